@@ -18,9 +18,10 @@ CFG = dict(
           "or Unmarshal for an undecodable message: never Canceled); C02_link_send / C02_link_send_arg / C02_link_hsend / C02_link_haccept / "
           "C02_args_c2h (list-level link, ALL runs: the body envelopes written under a stream's id, in wire order, are body_env id b for the "
           "arguments b of the stream's SendMsg calls that returned nil, in call order) and C02_args_prefix_c2h (with it: the messages the "
-          "handler's RecvMsg was given are a PREFIX of those ARGUMENTS - no envelope in the statement); the handler->caller list-level link "
-          "(accepted message frames = the handler's SendMsg arguments that returned nil) is NOT proved: C02_prefix_h2c stops at the envelopes the "
-          "writer accepted and the step lemmas; C02_link_msg_frame (step lemmas: SendMsg(b) writes body_env id b and returns nil in one step; a handler's SendMsg(b) offers "
+          "handler's RecvMsg was given are a PREFIX of those ARGUMENTS - no envelope in the statement); C02_args_h2c (the list-level link handler->caller, all runs of the system: the bare "
+          "messages the server's writer took under the id of an open stream are exactly the frames of the SendMsg calls of THE handler of that "
+          "stream that returned nil, in call order; the handler of an id is unique along the run: sv/cw's pv_uniq under sys_sconf) and "
+          "C02_args_prefix_h2c (the messages the caller's RecvMsg returned are a PREFIX of the decodable ARGUMENTS of those calls); C02_link_msg_frame (step lemmas: SendMsg(b) writes body_env id b and returns nil in one step; a handler's SendMsg(b) offers "
           "msg_frame k b and returns nil exactly when the writer takes that frame). ALL runs (arbitrary faults, cancellation, resets): "
           "C02_wire_c2s_prefix / C02_wire_s2c_prefix / C02_wire_complete (per stream id what a side has read is a prefix of what the other "
           "side wrote, equal once wires and inboxes are empty); C02_caller_prefix (the messages RecvMsg returned are a PREFIX of the messages "
@@ -36,7 +37,7 @@ CFG = dict(
     props="Props/C02.v",
     theorems=["C02_prefix_c2h", "C02_prefix_h2c", "C02_handler_eof_after_all", "C02_handler_eof_complete", "C02_handler_eof_delivered",
               "C02_caller_eof_after_all", "C02_caller_eof_complete", "C02_caller_msgs_complete", "C02_link_send_reach",
-              "C02_args_prefix_c2h", "C02_args_c2h",
+              "C02_args_prefix_c2h", "C02_args_c2h", "C02_args_prefix_h2c", "C02_args_h2c",
               "C02_link_send", "C02_link_send_arg", "C02_link_hsend", "C02_link_haccept", "C02_link_msg_frame",
               "C02_wire_c2s_prefix", "C02_wire_s2c_prefix", "C02_wire_complete", "C02_caller_prefix",
               "C02_handler_eof_sound", "C02_handler_recv_was_sent", "C02_caller_eof_sound", "C02_handler_order", "C02_caller_order"],
